@@ -17,6 +17,7 @@ import (
 	"strconv"
 	"strings"
 	"sync"
+	"sync/atomic"
 	"time"
 
 	"github.com/hydraide/hydraide/app/core/hydra/swamp/treasure/guard"
@@ -280,32 +281,33 @@ func genC15s(rng *rand.Rand, tier string, w *bufio.Writer) {
 			}
 		})
 		var wg sync.WaitGroup
-		for k := 0; k < gor; k++ {
-			wg.Add(1)
-			seed := rng.Int63()
-			go func(k int, seed int64) {
-				defer wg.Done()
-				lr := rand.New(rand.NewSource(seed))
-				var old []int64
-				for i := 0; i < iters; i++ {
-					id := int64(g.StartTreasureGuard(lr.Intn(4) != 0))
-					if id == 0 {
-						continue
+		if r%2 == 1 {
+			for j := range c15Arrived {
+				atomic.StoreInt64(&c15Arrived[j], 0)
+			}
+			// try-acquire races: goroutines released by a barrier all call the non-waiting Start on a
+			// free guard at once; whoever is granted announces and releases before the next volley
+			volleys := 150 * iters / 25
+			for k := 0; k < 4; k++ {
+				wg.Add(1)
+				go func(k int) {
+					defer wg.Done()
+					for v := 0; v < volleys; v++ {
+						raceBarrier(&mu, &log, k, v)
+						if id := int64(g.StartTreasureGuard(false)); id != 0 {
+							runtime.Gosched()
+							add(fmt.Sprintf("pre %d %d", k, id))
+							g.ReleaseTreasureGuard(guard.ID(id))
+						}
 					}
-					if lr.Intn(3) == 0 {
-						runtime.Gosched()
-					}
-					add(fmt.Sprintf("pre %d %d", k, id))
-					g.ReleaseTreasureGuard(guard.ID(id))
-					if lr.Intn(3) == 0 { // duplicate release, as SaveFunction + deferred release do
-						g.ReleaseTreasureGuard(guard.ID(id))
-					}
-					old = append(old, id)
-					if lr.Intn(5) == 0 { // stale release of an ID this goroutine held earlier
-						g.ReleaseTreasureGuard(guard.ID(old[lr.Intn(len(old))]))
-					}
-				}
-			}(k, seed)
+				}(k)
+			}
+		} else {
+			for k := 0; k < gor; k++ {
+				wg.Add(1)
+				seed := rng.Int63()
+				c15Worker(&wg, g, k, seed, iters, add)
+			}
 		}
 		done := make(chan struct{})
 		go func() { wg.Wait(); close(done) }()
@@ -328,6 +330,44 @@ func genC15s(rng *rand.Rand, tier string, w *bufio.Writer) {
 		}
 		mu.Unlock()
 	}
+}
+
+// a sense-reversing spin barrier for 4 goroutines (keeps the volley tight without channels)
+var c15Arrived [4]int64
+
+func raceBarrier(mu *sync.Mutex, log *[]string, k, v int) {
+	atomic.StoreInt64(&c15Arrived[k], int64(v+1))
+	for j := 0; j < 4; j++ {
+		for atomic.LoadInt64(&c15Arrived[j]) < int64(v+1) {
+			runtime.Gosched()
+		}
+	}
+}
+
+func c15Worker(wg *sync.WaitGroup, g guard.Guard, k int, seed int64, iters int, add func(string)) {
+	go func() {
+		defer wg.Done()
+		lr := rand.New(rand.NewSource(seed))
+		var old []int64
+		for i := 0; i < iters; i++ {
+			id := int64(g.StartTreasureGuard(lr.Intn(4) != 0))
+			if id == 0 {
+				continue
+			}
+			if lr.Intn(3) == 0 {
+				runtime.Gosched()
+			}
+			add(fmt.Sprintf("pre %d %d", k, id))
+			g.ReleaseTreasureGuard(guard.ID(id))
+			if lr.Intn(3) == 0 { // duplicate release, as SaveFunction + deferred release do
+				g.ReleaseTreasureGuard(guard.ID(id))
+			}
+			old = append(old, id)
+			if lr.Intn(5) == 0 { // stale release of an ID this goroutine held earlier
+				g.ReleaseTreasureGuard(guard.ID(old[lr.Intn(len(old))]))
+			}
+		}
+	}()
 }
 
 func runC15s(in *bufio.Scanner, w *bufio.Writer) {
